@@ -134,7 +134,7 @@ def run(ctx):
         ctx.add_tlc(res, 'chain identity for every multi-index of every tensor: ' + cfg)
     rng = np.random.default_rng(ctx.seed)
     trs, metas = [], []
-    nrun = 30 if quick else 300
+    nrun = 108 if quick else 540
     shapes = [([2, 3], 1), ([3, 2, 2], 2), ([2, 2, 3, 2], 2), ([4, 3], 3), ([3, 3, 3], 1), ([2, 1, 3], 2), ([3, 1, 1, 2], 2), ([1, 3, 1], 2), ([3, 1, 4], 3)]
     unbound = 0
     for t in range(nrun):
